@@ -92,7 +92,8 @@ def _dump_system(system: Union[
                  ],
                  **kwargs) -> Iterable[str]:
     if isinstance(system, votelib.VotingSystem):
-        yield f'title={system.name}'
+        if system.name is not None:
+            yield f'title={system.name}'
         yield from _dump_system(system.evaluator, **kwargs)
     elif isinstance(system, votelib.evaluate.FixedSeatCount):
         yield f'seats={system.n_seats}'
